@@ -25,6 +25,7 @@ EXTENDS PubSubCore, Names, Json, IOUtils
 
 CONSTANTS
     MinWait,    \* shortest wait after which a blocking Pull may return empty
+    WaitLimit,  \* the server-side wait limit of a blocking Pull (an upper bound on it)
     Prompt      \* how soon after a deletion its waiting consumers must have been released
 
 Rec == ndJsonDeserialize(IOEnv.TRACE)
@@ -40,11 +41,12 @@ VARIABLES
     gone,     \* inv events of calls their client abandoned (their requests may still be processed)
     httpLast, \* <<subscription incarnation, message>> -> status the push endpoint answered last (-1: none)
     delT,     \* subscription incarnation -> instant its deletion completed
+    obsDel,   \* subscription incarnation -> index of the first response that observed it as deleted
     lightNb,  \* light histories: subscription incarnation -> last reported backlog size (-1: deleted)
     lightNl,  \* light histories: subscription incarnation -> last reported number of outstanding deliveries
     stats     \* [events |-> validated events, hist |-> histories accepted so far, viol |-> ...]
 
-tvars == <<coreVars, l, skip, hdr, pend, tok, content, ptime, gone, httpLast, delT, lightNb, lightNl, stats>>
+tvars == <<coreVars, l, skip, hdr, pend, tok, content, ptime, gone, httpLast, delT, obsDel, lightNb, lightNl, stats>>
 
 JudgeLate == "clock" \notin DOMAIN hdr.meta \/ hdr.meta.clock = "paused"
 \* Light histories (very large backlogs): the actors report sizes only and the model abstains
@@ -253,6 +255,9 @@ RetGuards(c, e) ==
       [] p.op = "CreateSub" ->
         { G("C10", e.code = "NOT_FOUND" => None \in TopicLookups(W, p.topic)),
           G("C10", e.code = "ALREADY_EXISTS" => \E w \in W : w.k = "m.cs" /\ w.name = p.name /\ ~w.ok),
+          \* ... and not because of an incarnation whose deletion an EARLIER response already reported
+          G("C10", e.code = "ALREADY_EXISTS" =>
+                       ~(p.name \in DOMAIN smap /\ smap[p.name] \in DOMAIN obsDel /\ obsDel[smap[p.name]] < pend[c].from)),
           G("C10", e.code = "INVALID_ARGUMENT" =>
                        \/ (p.name \in DOMAIN ProjOf /\ p.topic \in DOMAIN ProjOf /\ ProjOf[p.name] # ProjOf[p.topic])
                        \/ ~p.push_http),
@@ -294,6 +299,8 @@ RetGuards(c, e) ==
       [] p.op = "Pull" ->
         { G("C10", e.code = "NOT_FOUND" => (None \in SubLookups(W, p.sub) \/ RacedDeletion(W, p.sub))),
           G("C15", e.code = "OK" => (p.max >= 1 => Len(e.body.msgs) <= p.max)),
+          \* a blocking pull answers no later than its wait limit (judged under the paused clock)
+          G("C07", (JudgeLate /\ ~p.ri) => e.t - p.t <= WaitLimit + Prompt),
           G("C15", (e.code = "OK" /\ e.body.msgs = <<>>) =>
                        (p.ri \/ e.t - p.t >= MinWait \/ RacedDeletion(W, p.sub))),
           G("C03", (e.code = "OK" /\ e.body.msgs # <<>>) =>
@@ -515,7 +522,12 @@ EvGuards(e) ==
             (IF e.c \in DOMAIN pend /\ pend[e.c].e.op \in {"StreamOpen", "Pull"}
                 /\ RacedDeletion(Win(e.c), pend[e.c].e.sub)
              THEN { G("C12", FALSE) } ELSE {})
-      [] e.k = "panic" -> { G("C17", FALSE) }
+      [] e.k = "panic" ->
+            \* never a panic; a panic while a list call is being served also breaks "any decodable
+            \* token yields a valid page"
+            { G("C17", FALSE) } \cup
+            (IF \E c \in DOMAIN pend : pend[c].e.op \in {"ListTopics", "ListSubs", "ListTopicSubs"}
+             THEN { G("C13", FALSE) } ELSE {})
       [] e.k = "abort" -> { G("C17", FALSE) }      \* the server process died
       [] e.k = "end" ->
             { G("C07", pend = Empty),
@@ -561,7 +573,7 @@ LightGuards(e) ==
 
 LightApply(e) ==
     /\ now' = e.t
-    /\ UNCHANGED <<tmap, smap, T, S, torder, sorder, reg, pubs, tok, content, ptime, gone, httpLast, delT>>
+    /\ UNCHANGED <<tmap, smap, T, S, torder, sorder, reg, pubs, tok, content, ptime, gone, httpLast, delT, obsDel>>
     /\ lightNb' = IF e.k \in {"s.post", "s.pull", "s.ack", "s.mod", "s.expire", "s.stats"} /\ "nb" \in DOMAIN e.st
                   THEN Put(lightNb, e.si, IF e.st.deleted THEN None ELSE e.st.nb)
                   ELSE IF e.k = "s.del1" THEN Put(lightNb, e.si, None) ELSE lightNb
@@ -633,6 +645,12 @@ EvApply(e) ==
     /\ gone' = IF e.k = "cancel" /\ e.c \in DOMAIN pend THEN gone \cup {pend[e.c].e} ELSE gone
     /\ httpLast' = IF e.k = "http" /\ SubsNamed(e.sub) # {} THEN Put(httpLast, <<NewestNamed(e.sub), e.m>>, e.code) ELSE httpLast
     /\ delT' = IF e.k = "s.del1" THEN Put(delT, e.si, e.t) ELSE delT
+    /\ obsDel' =
+         IF e.k = "ret" /\ e.code = "NOT_FOUND" /\ pend[e.c].e.op \in {"GetSub", "Pull", "Ack", "ModAck", "DeleteSub"}
+         THEN LET nm == IF pend[e.c].e.op \in {"GetSub", "DeleteSub"} THEN pend[e.c].e.name ELSE pend[e.c].e.sub
+                  seen == {si \in SubLookups(Win(e.c), nm) \ {None} : si \in DOMAIN S /\ S[si].st # "live" /\ si \notin DOMAIN obsDel}
+              IN [si \in (DOMAIN obsDel) \cup seen |-> IF si \in DOMAIN obsDel THEN obsDel[si] ELSE l]
+         ELSE obsDel
     /\ ptime' =
          IF e.k = "ret" /\ e.code = "OK" /\ pend[e.c].e.op = "Pull" THEN PtimeAfter(e.body.msgs)
          ELSE IF e.k = "srecv" THEN PtimeAfter(e.msgs) ELSE ptime
@@ -645,7 +663,7 @@ TraceInit ==
     /\ l = 1 /\ skip = FALSE
     /\ hdr = [run |-> "none", meta |-> Empty, cap |-> 16, seed |-> 0]
     /\ pend = Empty /\ tok = Empty /\ content = Empty /\ ptime = Empty /\ gone = {}
-    /\ httpLast = Empty /\ delT = Empty /\ lightNb = Empty /\ lightNl = Empty
+    /\ httpLast = Empty /\ delT = Empty /\ obsDel = Empty /\ lightNb = Empty /\ lightNl = Empty
     /\ stats = [ok |-> 0, bad |-> 0, drift |-> 0]
 
 DoReset(e) ==
@@ -655,7 +673,7 @@ DoReset(e) ==
     /\ skip' = FALSE
     /\ hdr' = e
     /\ pend' = Empty /\ tok' = Empty /\ content' = Empty /\ ptime' = Empty /\ gone' = {}
-    /\ httpLast' = Empty /\ delT' = Empty /\ lightNb' = Empty /\ lightNl' = Empty
+    /\ httpLast' = Empty /\ delT' = Empty /\ obsDel' = Empty /\ lightNb' = Empty /\ lightNl' = Empty
 
 TraceNext ==
     /\ l <= Len(Rec)
@@ -664,7 +682,7 @@ TraceNext ==
        IF e.k = "reset"
        THEN DoReset(e) /\ UNCHANGED stats
        ELSE IF skip
-       THEN UNCHANGED <<coreVars, skip, hdr, pend, tok, content, ptime, gone, httpLast, delT, lightNb, lightNl, stats>>
+       THEN UNCHANGED <<coreVars, skip, hdr, pend, tok, content, ptime, gone, httpLast, delT, obsDel, lightNb, lightNl, stats>>
        ELSE LET gs == IF Light THEN LightGuards(e) ELSE LateGuards(e) \cup EvGuards(e)
                 bad == Fatal(gs)
             IN IF bad = {}
@@ -678,7 +696,7 @@ TraceNext ==
                ELSE /\ PrintT(<<"VIOL", ToJson([run |-> hdr.run, i |-> e.i, k |-> e.k, line |-> l, props |-> bad])>>)
                     /\ skip' = TRUE
                     /\ stats' = [stats EXCEPT !.bad = @ + 1]
-                    /\ UNCHANGED <<coreVars, hdr, pend, tok, content, ptime, gone, httpLast, delT, lightNb, lightNl>>
+                    /\ UNCHANGED <<coreVars, hdr, pend, tok, content, ptime, gone, httpLast, delT, obsDel, lightNb, lightNl>>
 
 TraceSpec == TraceInit /\ [][TraceNext]_tvars
 
